@@ -378,6 +378,8 @@ structure Inputs where
   mask1 : List Bool                 -- first _filter_ambiguity
   mask2 : List Bool                 -- second (dimension) _filter_ambiguity
   half : List Bool                  -- half-unit regex on each number's text
+  lockstep : Bool                   -- variant: `unit_is_prefix` is filtered together with the results (findings/nwu/
+                                    -- select-candidates-misaligned.diff); false = the flags of the loop are passed unfiltered
 
 /-- the source string the number loop works on -/
 def fixedSource (c : Cfg) (i : Inputs) : Str :=
@@ -396,6 +398,16 @@ def loopState (c : Cfg) (i : Inputs) : St :=
     coreLoop c (fixedSource c i) i.pm i.sm i.nonUnit (loopNumbers c i)
   else St.init
 
+/-- the `unit_is_prefix` list `_select_candidates` receives: one flag per result of the number loop; in the lockstep
+variant the flags of the results the ambiguity filters removed are dropped (the loop's results are the first entries of
+the filtered list, separate units come after them) -/
+def selectFlags (c : Cfg) (i : Inputs) : List Bool :=
+  let fl := (loopState c i).flags
+  if i.lockstep then
+    let f1 := applyMask fl i.mask1
+    if c.isDimension then applyMask f1 i.mask2 else f1
+  else fl
+
 /-- `extract` up to (not including) `expand_half_suffix` -/
 def extractPre (c : Cfg) (i : Inputs) : Option (List ER) :=
   if i.src.isEmpty then some []
@@ -407,7 +419,7 @@ def extractPre (c : Cfg) (i : Inputs) : Option (List ER) :=
       let r := separateUnits src.length i.ambTerm nonUnit st.result i.sep
       let r := applyMask r i.mask1
       let r := if c.isDimension then applyMask r i.mask2 else r
-      if c.isCurrency then selectCandidates c.sp src.length r st.flags else some r
+      if c.isCurrency then selectCandidates c.sp src.length r (selectFlags c i) else some r
     else some st.result
 
 def extract (c : Cfg) (i : Inputs) : Option (List ER) :=
